@@ -348,10 +348,15 @@ func (x *executor) applyContract(m *machine, fr *frame, in ssa.Instruction, res 
 	for _, cl := range fc.freshExprs {
 		ev2.where = cl.line
 		v := ev2.eval(cl.e)
-		if _, ok := v.typ.Underlying().(*types.Slice); !ok {
-			ev2.fail("fresh target must be a slice")
+		switch v.typ.Underlying().(type) {
+		case *types.Slice:
+			st.assume(mkEq(c.slRef(v.t), c.freshRef(st)))
+		case *types.Pointer:
+			// a freshly allocated object, or nil
+			st.assume(mkOr(mkEq(ev2.term(v), refConst(0)), mkEq(ev2.term(v), c.freshRef(st))))
+		default:
+			ev2.fail("fresh target must be a slice or a pointer")
 		}
-		st.assume(mkEq(c.slRef(v.t), c.freshRef(st)))
 	}
 	for _, cl := range fc.ensures {
 		ev2.where = cl.line
